@@ -326,6 +326,21 @@ def run_one(ch, cfg):
         viol.append(("manager/stopped-by-device-status:%s" % doc_cmd,
                      "%s at step %s: status 0x%04x -> %s: %s" % (
                          variant, kind, sw, type(exc).__name__, exc)))
+    # ---- R5 over time: the device keeps answering that status to everything (the wrong application is
+    # running, the device is locked ...) while two more requests arrive: still no reason to go down
+    if sw is not None and oc != OC_BENIGN and RC.in_device_range(sw) and not shutdown and \
+            ch.draw(3, "status-persists") == 1:
+        w.link.fault_fn = lambda i, a: ("sw", sw)
+        probe = {"command": "getPubKey", "keyId": "m/44'/0'/0'/0/0", "version": 1 if v1 else 5}
+        for j in range(2):
+            rep2, exc2 = w.request(probe)
+            if w.shutdown_requested:
+                viol.append(("manager/stopped-by-device-status:%s" % doc_cmd,
+                             "%s at step %s: status 0x%04x, then the same status to every exchange: "
+                             "follow-up %d -> %s: %s" % (variant, kind, sw, j + 1,
+                                                         type(exc2).__name__, exc2)))
+                break
+        w.link.fault_fn = None
     state = (variant, kind, _oname(outcome), sw)
     return _res(viol, w, state, fired, {"outcome." + _oname(outcome): 1},
                 {"variant": variant, "step": list(kind), "exchange_index": k,
